@@ -576,10 +576,17 @@ func (st *ccState) oracleRetry(v *vio) {
 			continue
 		}
 		// every transmission: identical bytes, requested destination, exact offset
+		// Each wait is double the previous one and starts when the datagram has been
+		// handed to the socket (the write may take time: slow-write fault).
+		expEnd := c.invT
 		for j, tx := range c.txs {
-			want := c.invT + cfg.T*time.Duration((int64(1)<<uint(j))-1)
+			want := c.invT
+			if j > 0 {
+				want = c.txs[j-1].doneT + cfg.T*time.Duration(int64(1)<<uint(j-1))
+			}
+			expEnd = tx.doneT + cfg.T*time.Duration(int64(1)<<uint(j))
 			if tx.t != want {
-				v.add("S-offset", "call %d (T=%v tries=%d): transmission %d at +%v, want +%v", c.id, cfg.T, cfg.tries, j+1, tx.t-c.invT, want-c.invT)
+				v.add("S-offset", "call %d (T=%v tries=%d): transmission %d at +%v, want +%v (previous write returned at +%v)", c.id, cfg.T, cfg.tries, j+1, tx.t-c.invT, want-c.invT, want-c.invT-cfg.T*time.Duration(int64(1)<<uint(maxInt(j-1, 0))))
 			}
 			if !tx.sameBytes {
 				v.add("S-bytes", "call %d: transmission %d differs from the request's encoding", c.id, j+1)
@@ -629,14 +636,21 @@ func (st *ccState) oracleRetry(v *vio) {
 			if len(c.txs) != cfg.tries {
 				v.add("S-count", "call %d (tries=%d): %d transmission(s)", c.id, cfg.tries, len(c.txs))
 			}
-			if life != st.bound(c) {
-				v.add("S-total", "call %d (T=%v tries=%d): failed after %v, want exactly %v", c.id, cfg.T, cfg.tries, life, st.bound(c))
+			if c.retT != expEnd {
+				v.add("S-total", "call %d (T=%v tries=%d): failed after %v, want exactly %v", c.id, cfg.T, cfg.tries, life, expEnd-c.invT)
 			}
 			if !p.IsNoResponse(c.err) {
 				v.add("S-error", "call %d: exhausted its tries but returned err=%v, want the no-response error", c.id, c.err)
 			}
 		}
 	}
+}
+
+func maxInt(a, b int) int {
+	if a > b {
+		return a
+	}
+	return b
 }
 
 func maxDur(a, b time.Duration) time.Duration {
